@@ -82,6 +82,8 @@ PLAN["C14"] = {
              functions=("Board::try_parse (via hook)", "PieceIndex::try_parse", "Board::from(&ArrayMap)", "Square::try_from(u8)"), bounds="placement fields <= 24 bytes over the regex alphabet, 7 slashes"),
         Inst("c14::fen_placement_le48", sub="C14 FEN", tiers=("thorough",), unwind=50, unwindset=(("Board as core::convert::From", 66),), timeout=7200, mem_gb=16,
              functions=("Board::try_parse (via hook)", "PieceIndex::try_parse", "Board::from(&ArrayMap)", "Square::try_from(u8)"), bounds="placement fields <= 48 bytes over the regex alphabet, 7 slashes"),
+        Inst("c14::fen_placement_digit_flood_le48", sub="C14 FEN", unwind=50, unwindset=(("Board as core::convert::From", 66), ("from_utf8", 50)), timeout=3600, mem_gb=12,
+             functions=("Board::try_parse (via hook)", "Board::from(&ArrayMap)"), bounds="placement fields <= 48 bytes made of digits 1-8 and 7 slashes"),
         Inst("c14::fen_castle_field", sub="C14 FEN", unwind=7, timeout=600, functions=("ArrayMap<Color, CastleRights>::try_parse (via hook)",), bounds="castling fields <= 4 bytes of [KQkq|]"),
         Inst("c14::reach_witness", sub="vacuity", unwind=7, timeout=600, expect="fail"),
     ],
@@ -248,6 +250,102 @@ PLAN["C02"] = {
     ],
 }
 
+# ---- C05 / C13 ---------------------------------------------------------------------------------------
+_eval_fn = ("Evaluator::evaluate", "Evaluator::default", "StateVariation::from", "eval::evaluate_piece_worths::evaluate", "eval::evaluate_piece_squares::evaluate",
+            "eval::evaluate_piece_squares::evaluate_piece_square", "eval::evaluate_force_king_to_edge::evaluate", "eval::evaluate_bad_pawns::evaluate",
+            "Evaluation arithmetic (Add, Sub, Neg, Mul<i32>, Mul<f32>)", "Evaluation::mate_in_ply", "Board::colored_attacks", "AttackMap::from_occupancy",
+            "State::is_check", "Square::manhattan_distance_to / flip_rank / white_at_bottom_index")
+LEGAL_STUB = ("MoveGenerator::compute_legal_moves (inside the evaluator) -> move set that is empty iff the reference finds no legal move for the lone king "
+              "(discharged by C01 on the same families up to the filter-loop reading argument)",)
+NONTERM_STUB = ("MoveGenerator::compute_legal_moves (inside the evaluator) -> non-empty set; only used on positions where the mover is not in check and its king "
+                "has an empty unattacked neighbour square, so a legal move exists",)
+
+
+def _eval_inst(name, sub, men, tiers, timeout, mem, stubs, mod="c05"):
+    us = (("from_occupancy#0", men + 2), ("from_occupancy#1", 8), ("evaluate_piece_squares::evaluate#0", men + 2), ("family", men + 2))
+    return Inst("%s::%s" % (mod, name), crate="engine", sub=sub, tiers=tiers, unwind=10, unwindset=us, nomem=True, timeout=timeout, mem_gb=mem,
+                functions=_eval_fn, stubs=GEO_STUBS + stubs,
+                bounds="family %s: kings + %d men of concrete kinds, all squares, perspective and ply (<= 10^6) symbolic; floats bit-precise" % (name, men))
+
+
+PLAN["C05"] = {
+    "feature": "c05",
+    "exhaustive": False,
+    "bounds": "mate scores: ply <= 10^6; evaluator: 3- and 4-man families in which the side to move is a lone king (KRk, KQk, KPk, KBNk, KBBk, KRRk, KQRk; both "
+              "colours), all squares, both perspectives, ply <= 10^6; floats bit-precise",
+    "outside": ["more than 4 men; positions where the side to move has more than its king (the no-legal-move oracle enumerates the eight king steps)",
+                "ply >= 2^31 (the `as i32` cast wraps)"],
+    "trusted": ["rustc / kani-compiler / CBMC (incl. its IEEE-754 float encoding)", "reference rules (harness/common/rules.rs)"],
+    "assumptions": ["positions are legal positions"],
+    "insts": [
+        Inst("c05::mate_scores_are_terminal_and_monotone", crate="engine", sub="C05.a", timeout=600, functions=("Evaluation::mate_in_ply", "Evaluation::is_terminal", "Neg/Ord for Evaluation"), bounds="ply p, q <= 10^6"),
+        _eval_inst("krk_black_to_move", "C05.b", 1, ("quick", "thorough"), 3600, 10, LEGAL_STUB),
+        _eval_inst("krk_white_to_move", "C05.b", 1, ("quick", "thorough"), 3600, 10, LEGAL_STUB),
+        _eval_inst("kqk_black_to_move", "C05.b", 1, ("quick", "thorough"), 3600, 10, LEGAL_STUB),
+        _eval_inst("kqk_white_to_move", "C05.b", 1, ("thorough",), 3600, 10, LEGAL_STUB),
+        _eval_inst("kpk_black_to_move", "C05.b", 1, ("quick", "thorough"), 3600, 10, LEGAL_STUB),
+        _eval_inst("kqk_stalemate_is_zero", "C05.b", 1, ("quick", "thorough"), 3600, 10, LEGAL_STUB),
+        _eval_inst("kbnk_black_to_move", "C05.b", 2, ("thorough",), 7200, 14, LEGAL_STUB),
+        _eval_inst("krrk_white_to_move", "C05.b", 2, ("thorough",), 7200, 14, LEGAL_STUB),
+        _eval_inst("kbbk_black_to_move", "C05.b", 2, ("thorough",), 7200, 14, LEGAL_STUB),
+        _eval_inst("kqrk_black_to_move", "C05.b", 2, ("thorough",), 7200, 14, LEGAL_STUB),
+        _eval_inst("reach_witness", "vacuity", 1, ("quick", "thorough"), 1800, 10, LEGAL_STUB),
+    ],
+}
+PLAN["C05"]["insts"][-1].expect = "fail"
+
+_c13 = []
+for fam, men, mode, tiers in (("krk_btm", 1, 0, ("quick", "thorough")), ("kqk_wtm", 1, 0, ("thorough",)), ("kpk_btm", 1, 0, ("quick", "thorough")),
+                              ("kbnk_btm", 2, 0, ("thorough",)), ("kpkp_wtm", 2, 1, ("quick", "thorough")), ("kppk_wtm", 2, 1, ("thorough",)),
+                              ("krkn_btm", 2, 1, ("thorough",)), ("kqkb_wtm", 2, 1, ("thorough",)), ("kbpkn_wtm", 3, 1, ("thorough",))):
+    for which in ("negation", "mirror"):
+        _c13.append(_eval_inst("%s_%s" % (fam, which), "C13 " + which, men, tiers, 7200, 14, LEGAL_STUB if mode == 0 else NONTERM_STUB, mod="c13"))
+_c13.append(Inst("c13::lemma_weighting_is_odd", crate="engine", sub="C13 lemma", timeout=1200, functions=("<Evaluation as Mul<f32>>::mul", "<Evaluation as Neg>::neg"),
+                 bounds="x in [-2^20, 2^20], weights 1.0 / 0.8 / 0.2"))
+_w = _eval_inst("reach_witness", "vacuity", 1, ("quick", "thorough"), 1800, 10, LEGAL_STUB, mod="c13")
+_w.expect = "fail"
+_c13.append(_w)
+PLAN["C13"] = {
+    "feature": "c13",
+    "exhaustive": False,
+    "bounds": "3-, 4- and 5-man families (KRk, KQk, KPk, KBNk with a lone king to move incl. terminal positions; KPkp, KPPk, KRkn, KQkb, KBPkn restricted to positions "
+              "where the mover is not in check and its king has a free safe square), all squares, both perspectives, ply <= 10^6; floats bit-precise",
+    "outside": ["more than 5 men", "castling rights and en-passant targets (the evaluator does not read them)"],
+    "trusted": ["rustc / kani-compiler / CBMC (incl. its IEEE-754 float encoding)", "mirror() and the reference rules in harness/common/rules.rs"],
+    "assumptions": ["positions are legal positions"],
+    "insts": _c13,
+}
+
+# ---- C08 -------------------------------------------------------------------------------------------
+_c08_fn = ("ZobristHasher::with", "ZobristHasher::hash", "ArrayMap::from_fn", "Board::piece_occupancy", "BitBoard::iter_ones", "State::turn_to_move")
+_c08_us = (("family", 7), ("ZobristHasher4hash#0", 4), ("ZobristHasher4hash#1", 9), ("ZobristHasher4hash#2", 4))
+
+
+def _c08_inst(name, sub, tiers=("quick", "thorough"), timeout=3600, mem=12, bounds=""):
+    return Inst("c08::" + name, sub=sub, tiers=tiers, unwind=66, unwindset=_c08_us, nomem=True, timeout=timeout, mem_gb=mem, functions=_c08_fn, bounds=bounds)
+
+
+PLAN["C08"] = {
+    "feature": "c08",
+    "exhaustive": False,
+    "bounds": "equality half: all key tables (1026 arbitrary keys), the family K+P vs k+p with symbolic squares/ep and arbitrary counters; transposition of two knight moves "
+              "around a king move; separation half: key tables from splitmix64(VERIF_SEED) (two independent tables), families of kings + 3..4 men (concrete kinds, symbolic squares), pairs differing in side / one castling right / en-passant availability / one move's worth of placement",
+    "outside": ["pairs differing in more than four placement incidences (any 65 keys are linearly dependent over GF(2): far-apart colliding pairs exist under every seed)",
+                "the ChaCha8 generator itself (keys are taken from a generic Rng)"],
+    "trusted": ["rustc / kani-compiler / CBMC"],
+    "assumptions": ["a failure of the separation half must reproduce under two independent key tables to count (2^-64 coincidences are not defects)"],
+    "insts": [
+        _c08_inst("equal_positions_hash_equal", "C08.a", bounds="all key tables (1026 arbitrary keys); K+P vs k+p, symbolic squares, ep target and counters"),
+        _c08_inst("transposition_hashes_equal", "C08.a", bounds="seeded keys; K+N+N vs k, two knight moves around a king move, all squares"),
+        _c08_inst("separates_side_to_move", "C08.b", bounds="seeded keys; K+Q vs k+n+p; pair differs in side to move"),
+        _c08_inst("separates_castling_rights", "C08.b", bounds="seeded keys; K+R+R vs k+r+r; pair differs in exactly one castling right"),
+        _c08_inst("separates_en_passant_availability", "C08.b", bounds="seeded keys; K+P+N vs k+p; pair differs in an available en-passant capture"),
+        _c08_inst("separates_placement_white", "C08.b", bounds="seeded keys; K+P+N vs k+r; pair differs by one pseudo-legal move's placement change"),
+        _c08_inst("separates_placement_black", "C08.b", bounds="seeded keys; k+p+b vs K+Q; pair differs by one pseudo-legal move's placement change"),
+        Inst("c08::reach_witness", sub="vacuity", unwind=66, unwindset=_c08_us, nomem=True, timeout=1800, mem_gb=12, expect="fail"),
+    ],
+}
+
 # ---- C09 -------------------------------------------------------------------------------------------
 def gen_tables(workdir):
     rc, out = run_tool("tabledump", [os.path.join(ROOT, "harness/core/src/gen_tables.rs")], workdir)
@@ -289,5 +387,85 @@ PLAN["C09"] = {
 }
 
 
+# ---- assume-guarantee chain (DESIGN §3.2) ---------------------------------------------------------------
+def _sha(paths):
+    import hashlib
+    h = hashlib.sha256()
+    for p in sorted(paths):
+        h.update(p.encode())
+        try:
+            h.update(open(p, "rb").read())
+        except OSError:
+            h.update(b"<missing>")
+    return h.hexdigest()[:20]
+
+
+def prereq_c09(workdir):
+    """Checks that replace the table lookups by geometry rely on C09 for *this* tree. The verdict is cached
+    for gating only, keyed by every file C09's encoding is generated from; C09's own check never reads it."""
+    import json
+    import vdriver
+    core = "/repo/weechess-core/src/"
+    files = [core + f for f in ("attacks.rs", "board.rs", "common.rs", "utils.rs", "piece.rs", "color.rs", "lib.rs")]
+    files += ["/repo/weechess-core/Cargo.toml", "/repo/Cargo.lock"]
+    files += [os.path.join(ROOT, f) for f in ("harness/core/src/c09.rs", "harness/core/src/lib.rs", "harness/common/geo.rs",
+                                              "harness/common/shim.rs", "tools/tabledump/src/main.rs", "lib/vdriver.py")]
+    key = _sha(files)
+    cdir = os.path.join(ROOT, "work", "prereq")
+    os.makedirs(cdir, exist_ok=True)
+    cf = os.path.join(cdir, "C09-%s.json" % key)
+    if os.path.exists(cf):
+        rc = json.load(open(cf))["exit"]
+    else:
+        vdriver.log("[prereq] C09 has no verdict for this tree yet (key %s): running its quick tier first" % key)
+        rc = vdriver.check("C09", PLAN["C09"], "quick", None, 0, evidence=False)
+        json.dump({"exit": rc, "key": key}, open(cf, "w"))
+    if rc == 0:
+        return True, ""
+    return False, ("C09 (lookup tables = geometry) does not hold or could not be decided on this tree (exit %d): checks that "
+                   "stand in geometry for the lookups cannot be trusted; see ./check C09" % rc)
+
+
+for _p in ("C01", "C05", "C10", "C13"):
+    PLAN[_p]["prereq"] = [prereq_c09]
+
+
 def setup():
-    return 0
+    """Run once after a fresh restore: warm the builds, self-test the oracle geometry, seed the C09 gate."""
+    import shutil
+    import vdriver
+    from vdriver import _run, ENV, TARGET, log
+    rc_all = 0
+    for crate in ("core", "engine"):
+        cdir = os.path.join(ROOT, "harness", crate)
+        shutil.copyfile("/repo/Cargo.lock", os.path.join(cdir, "Cargo.lock"))
+    # 1. the reference geometry against naive ray walking (native unit test of harness/common/geo.rs)
+    env = dict(ENV)
+    env["RUSTUP_TOOLCHAIN"] = "nightly"
+    env["RUSTFLAGS"] = "--cfg weechess_verif -Awarnings"
+    rc, out = _run(["cargo", "test", "--lib", "--target-dir", os.path.join(TARGET, "selftest"), "geo::selftest"],
+                   cwd=os.path.join(ROOT, "harness", "core"), env=env, timeout=1800)
+    ok = rc == 0 and "1 passed" in out
+    log("[setup] oracle geometry self-test: %s" % ("ok" if ok else "FAILED\n" + out[-2000:]))
+    if not ok:
+        rc_all = 1
+    # 1b. the reference rules against the repository's real move generator on perft walks (oracle self-test)
+    env["RUSTFLAGS"] = "--cfg weechess_verif --cfg replay -Awarnings"
+    rc, out = _run(["cargo", "test", "--release", "--lib", "--target-dir", os.path.join(TARGET, "selftest"), "selftest::oracle"],
+                   cwd=os.path.join(ROOT, "harness", "core"), env=env, timeout=1800)
+    ok = rc == 0 and "1 passed" in out
+    log("[setup] reference rules vs real move generator (perft walks): %s" % ("ok" if ok else "FAILED\n" + out[-2000:]))
+    if not ok:
+        rc_all = 1
+    # 2. warm the Kani builds (dependencies) and the native replay builds
+    for pid in ("C20", "C15"):
+        rc = vdriver.check(pid, PLAN[pid], "quick", "reach_witness", 0, evidence=False)
+        log("[setup] warm build via %s reach witness: exit %d" % (pid, rc))
+        if rc != 0:
+            rc_all = 1
+    # 3. seed the prerequisite gate
+    ok, why = prereq_c09(os.path.join(ROOT, "work"))
+    log("[setup] C09 gate: %s" % ("ok" if ok else why))
+    if not ok:
+        rc_all = 1
+    return rc_all
